@@ -54,6 +54,7 @@ func runC06(p *chk.Prog, r *chk.Report) {
 	syncStateRule(p, r)
 	c06Handler(p, r)
 	c06Clear(p, r)
+	releaseOnExitRule(p, r)
 }
 
 func c06Gate(p *chk.Prog, r *chk.Report) {
@@ -405,6 +406,66 @@ func c06Handler(p *chk.Prog, r *chk.Report) {
 	start := chk.Site{G: g, B: es[0].B.Succs[es[0].K], I: 0}
 	w2 := (&chk.Walk{G: g, From: start, Inclusive: true, Hit: mut}).Run()
 	x.Check("SetBalancer:failed-write-keeps-allocator-memory", posOf(w2, f), !w2.Found, "", "the allocator is modified on the failed-write path")
+}
+
+// releaseOnExitRule (shared by C06, C07, C11): a Service that stops being entitled to an address gives back what the
+// allocator remembers for it, whatever its status says - the status can lag behind the allocator after a failed write,
+// and the API server clears it on a type change.
+func releaseOnExitRule(p *chk.Prog, r *chk.Report) {
+	x := r.Rule("RELEASE-ON-EXIT", "B path", "in controller.convergeBalancer each of the exits `not a LoadBalancer`, `no pools`, `no cluster IPs`, `RequireDualStack without two cluster IPs` passes clearServiceState(key, svc) on every feasible path before the function is left (no shortcut that trusts the recorded status)", 4)
+	f := need(x, p, "controller", "controller", "convergeBalancer")
+	if f == nil {
+		return
+	}
+	g := f.Graph()
+	svc, key := isParam(f, "svc"), isParam(f, "key")
+	isClear := f.ContainsPat("RECV.clearServiceState(K, S)", chk.H("K", key), chk.H("S", svc))
+	policy := func(e ast.Expr) bool {
+		return definedBy(g, "*(S.Spec.IPFamilyPolicy)", chk.H("S", svc))(e) || flowsFromPolicy(f, g, e, svc)
+	}
+	exits := []struct {
+		name string
+		gd   chk.Guard
+	}{
+		{"not-a-load-balancer", g.GPat(true, "S.Spec.Type != T", chk.H("S", svc), chk.H("T", constStr(f, "LoadBalancer")))},
+		{"no-pools", g.GPat(true, "len(RECV.pools.ByName) == 0")},
+		{"no-cluster-ips", g.GPat(true, `len(S.Spec.ClusterIPs) == 0 && S.Spec.ClusterIP == ""`, chk.H("S", svc))},
+		{"dual-stack-required", g.GPat(true, "P == R && len(S.Spec.ClusterIPs) < 2", chk.H("S", svc), chk.H("P", policy), chk.H("R", constStr(f, "RequireDualStack")))},
+	}
+	for _, ex := range exits {
+		es := g.DirectEdgesImplying(ex.gd)
+		if len(es) == 0 {
+			x.Fail("converge:exit:"+ex.name+":branch", f.Pos(), "the exit is not found (its condition changed): cannot decide that it releases the allocation")
+			continue
+		}
+		for _, e := range es {
+			esc := g.FeasibleEscape(e, isClear, nil, nil)
+			x.Check("converge:exit:"+ex.name+":releases", e.B.Nodes[len(e.B.Nodes)-1].Pos(), !esc, "", "a Service that is "+ex.name+" can leave convergeBalancer without clearServiceState: an address the allocator still holds for it (a failed status write, a status cleared by the API server) stays reserved")
+		}
+	}
+}
+
+// flowsFromPolicy: e is the local that holds the Service's IP family policy (default SingleStack, overwritten by
+// *svc.Spec.IPFamilyPolicy when set).
+func flowsFromPolicy(f *chk.Fn, g *chk.Graph, e ast.Expr, svc func(ast.Expr) bool) bool {
+	id, ok := ast.Unparen(e).(*ast.Ident)
+	if !ok {
+		return false
+	}
+	o := f.ObjOf(id)
+	if o == nil {
+		return false
+	}
+	for _, a := range assignsTo(f, o) {
+		as, isAs := a.(*ast.AssignStmt)
+		if !isAs || len(as.Rhs) != 1 {
+			continue
+		}
+		if f.MatchWith("*(S.Spec.IPFamilyPolicy)", as.Rhs[0], chk.H("S", svc)) != nil {
+			return true
+		}
+	}
+	return false
 }
 
 func c06Clear(p *chk.Prog, r *chk.Report) {
